@@ -85,6 +85,18 @@ def run(ctx):
     others = list(corpus) + palette_documents(rng, 12 if ctx.tier == "thorough" else 5) + multi_dependency_documents(rng, 12 if ctx.tier == "thorough" else 5)
     for src in corpus[: (len(corpus) if ctx.tier == "thorough" else 40)]:
         others.append(D.mutate(rng, src))
+    # generated names: id-less objects of classes whose name prefixes collide (QLabel x n next to Label1, Page / Page1 / Page12): the counters of different
+    # prefixes interact, so the ORDER in which objects are named is visible in the output
+    from . import c10
+    import os
+    os.environ["VERIF_EXTRA_METATYPES"] = c10.EXTRA
+    naming = [{"cls": "QWidget", "id": None, "kids": [{"cls": c, "id": None, "kids": []} for c in cs]} for cs in
+              (["QLabel", "QLabel", "Label1"], ["Label1", "QLabel", "QLabel", "QLabel"], ["Page", "Page1", "Page", "Page12", "Page1", "Page"])]
+    naming += [c10.gen_tree(rng, 3, [], False) for _ in range(20 if ctx.tier == "thorough" else 8)]
+    for t in naming:
+        c10.flat(t, [])
+        others.append(c10.to_qml(t) + "\n")
+        ctx.dist("naming")
     for _ in others:
         ctx.dist("corpus/mutant")
     srcs = wide + others
